@@ -16,6 +16,7 @@ import (
 // int8..int64 / uint8 -> integer, H -> string.
 func RefUBJSON(b []byte) (r Ref) {
 	d := &ubjDec{b: b}
+	defer func() { r.Nodes = d.nodes }()
 	for d.p < len(b) {
 		// no-ops between top-level values are skipped
 		if b[d.p] == 'N' {
@@ -34,8 +35,9 @@ func RefUBJSON(b []byte) (r Ref) {
 }
 
 type ubjDec struct {
-	b []byte
-	p int
+	b     []byte
+	p     int
+	nodes int // values decoded so far, including those inside an incomplete container
 }
 
 func (d *ubjDec) need(n int) *refErr {
@@ -142,6 +144,7 @@ func isUBJValueMarker(m byte) bool {
 
 // payload decodes the value whose marker m has been consumed.
 func (d *ubjDec) payload(m byte) (Value, *refErr) {
+	d.nodes++
 	switch m {
 	case 'Z':
 		return NullV(), nil
